@@ -9,7 +9,7 @@ from . import ftlib as F
 ID = "C05"
 CHECKER = "chk_named"
 THEOREMS = ['C05_q2r_decomposition', 'C05_r2q_decomposition', 'C05_transforms_agree_q2r', 'C05_transforms_agree_q2r_unc', 'C05_transforms_agree_r2q', 'C05_transforms_agree_r2q_unc', 'C05_transforms_agree_q2r_full', 'C05_transforms_agree_r2q_full', 'C05g_q2r_decomposition', 'C05g_r2q_decomposition', 'C05g_q2r_decomposition_binary64', 'C05g_two_over_pi_binary64']
-RULE = ("all 24 named transforms x {Lorch, omitted-range} on/off x with/without uncertainties (exhaustive over methods and options), "
+RULE = ("all 24 named transforms x {Lorch, omitted-range} on/off x with/without uncertainties (exhaustive over methods and options), with and without the window keywords xmin/xmax, flags as bool / numpy bool / 1, uncertainty positional or by its keyword, "
         "sampled grids/data/material constants; all three returned arrays compared; non-trivial = some output differs from the all-zero "
         "input's output; distinct by input hash")
 
@@ -24,7 +24,10 @@ def generate(rng, tier):
                 for Y in range(nout):
                     for lorch in (False, True):
                         for omitted in (False, True):
-                            c = F.gen_named_case(rng, "quick", direction, X, Y, lorch=lorch, omitted=omitted, channel=2, unsorted=(not lorch and not omitted and (X + Y) % 2 == 0))
+                            uns = (not lorch and not omitted and (X + Y) % 2 == 0)
+                            # the window keywords of the core transform given to the named transform (sorted grids; at least two points kept)
+                            win = "none" if uns else rng.choice(["none", "grid", "between", "lo_only", "hi_only", "near", "hi_grid"])
+                            c = F.gen_named_case(rng, "quick", direction, X, Y, lorch=lorch, omitted=omitted, channel=2, unsorted=uns, win=win)
                             # every method sees uncertainties given (non-zero) and absent
                             if lorch == omitted:
                                 c["dy"] = [rng.logu(1e-4, 0.5) for _ in c["xin"]]
@@ -36,6 +39,11 @@ def generate(rng, tier):
                                 # keep the low-x term away from its removable singularities (r = +-pi/Qmax) and Qmin > 0
                                 if c["xin"][0] == 0.0 and omitted:
                                     c["xin"] = [v + 0.37 for v in c["xin"]]
+                            lo = c["xmin"] if c["xmin"] is not None else min(c["xin"])
+                            hi = c["xmax"] if c["xmax"] is not None else max(c["xin"])
+                            if sum(1 for v in c["xin"] if lo <= v <= hi) < 2:
+                                c["xmin"], c["xmax"] = None, None
+                                c["desc"]["window"] = "none"
                             c["pass_flags"] = True
                             cases.append(c)
     return cases
